@@ -89,11 +89,104 @@ def generate(ck):
     return descs
 
 
+INVISIBLE = []
+INK_TESTED = [0]
+
+
+def _not_drawn(ax, ln):
+    """Why a curve that sits in the Axes would leave no ink, or None. Attribute tests for every curve, a real
+    rendering (Agg, this curve alone against the empty canvas) for the first and last curve of an Axes."""
+    from matplotlib.colors import to_rgba
+
+    x, y = np.asarray(ln.get_xdata(), dtype=float), np.asarray(ln.get_ydata(), dtype=float)
+    if x.size == 0 or not np.any(np.isfinite(x) & np.isfinite(y)):
+        return None  # nothing to draw (an all-NaN rescaled first row): judged by the data clauses
+    if not ln.get_visible():
+        return "visible=False"
+    a = ln.get_alpha()
+    if a is not None and float(a) <= 0:
+        return f"alpha={a}"
+    has_marker = str(ln.get_marker()) not in ("None", "", " ", "none")
+    has_stroke = str(ln.get_linestyle()) not in ("None", "", " ", "none") and float(ln.get_linewidth()) > 0
+    if not (has_marker or has_stroke):
+        return "no stroke and no marker"
+    try:
+        rgba = to_rgba(ln.get_color())
+    except ValueError:
+        return None
+    if rgba[3] == 0:
+        return "fully transparent colour"
+    if tuple(np.round(rgba[:3], 6)) == tuple(np.round(ax.get_facecolor()[:3], 6)) and ax.get_facecolor()[3] > 0:
+        return "drawn in the background colour"
+    return None
+
+
+def _leaves_ink(ax, ln):
+    fig = ax.figure
+    arts = [a_ for a_ in fig.findobj() if hasattr(a_, "get_visible") and a_ is not fig]
+    vis = [(a_, a_.get_visible()) for a_ in arts]
+    dpi = fig.get_dpi()
+    clip = ln.get_clip_on()
+    try:
+        fig.set_dpi(60)
+        ln.set_clip_on(False)  # (a fully relaxed profile lies ON the lower edge of the Axes: half of it is clipped)
+        for a_ in arts:
+            a_.set_visible(False)
+        for a_ in (ax, ln):
+            a_.set_visible(True)
+        ax.patch.set_visible(False)
+        ln.set_visible(False)
+        fig.canvas.draw()
+        blank = np.asarray(fig.canvas.buffer_rgba()).copy()
+        ln.set_visible(True)
+        fig.canvas.draw()
+        drawn = np.asarray(fig.canvas.buffer_rgba())
+        return bool(np.any(drawn != blank))
+    finally:
+        for a_, v_ in vis:
+            a_.set_visible(v_)
+        ln.set_clip_on(clip)
+        fig.set_dpi(dpi)
+
+
 def _lines(ax):
-    return [(np.asarray(ln.get_xdata(), dtype=float), np.asarray(ln.get_ydata(), dtype=float)) for ln in ax.get_lines()]
+    lns = list(ax.get_lines())
+    for k, ln in enumerate(lns):
+        why = _not_drawn(ax, ln)
+        if why is None and k in (0, len(lns) - 1) and ln.get_visible() and np.any(np.isfinite(np.asarray(ln.get_ydata(), dtype=float))) and INK_TESTED[0] < 6:
+            INK_TESTED[0] += 1
+            try:
+                xl, yl = ax.get_xlim(), ax.get_ylim()
+                xs, ys = np.asarray(ln.get_xdata(), dtype=float), np.asarray(ln.get_ydata(), dtype=float)
+                inside = np.isfinite(xs) & np.isfinite(ys) & (xs >= min(xl)) & (xs <= max(xl)) & (ys >= min(yl)) & (ys <= max(yl))
+                # (a curve whose visible part is shorter than a few pixels - a run of 0.2 time units stamped
+                #  from 1 000 000 on a root axis that starts at 0 - legitimately leaves nothing: sweep of seed 5)
+                span = 0.0
+                if inside.sum() >= 2:
+                    px = ax.transData.transform(np.column_stack([xs[inside], ys[inside]]))
+                    px = px[np.all(np.isfinite(px), axis=1)]
+                    span = float(max(np.ptp(px[:, 0]), np.ptp(px[:, 1]))) * 60.0 / ax.figure.get_dpi() if len(px) >= 2 else 0.0
+                if span >= 4.0 and not _leaves_ink(ax, ln):
+                    why = "leaves no ink when rendered alone"
+            except Exception:  # noqa: BLE001  (a canvas that cannot render is not evidence of anything)
+                pass
+        if why is not None:
+            INVISIBLE.append({"curve": k, "of": len(lns), "why": why})
+    return [(np.asarray(ln.get_xdata(), dtype=float), np.asarray(ln.get_ydata(), dtype=float)) for ln in lns]
 
 
 def run_case(ck, desc):
+    INVISIBLE.clear()
+    INK_TESTED[0] = 0
+    out = _run_case(ck, desc)
+    ck.count("curves_rendered_alone_for_ink", INK_TESTED[0])
+    if INVISIBLE:
+        ck.violation("every-curve-is-drawn-visibly", {"curves": INVISIBLE[:4], "n": len(INVISIBLE)}, desc)
+        INVISIBLE.clear()
+    return out
+
+
+def _run_case(ck, desc):
     import matplotlib.pyplot as plt
 
     import bluebonnet.plotting as bp
